@@ -504,6 +504,20 @@ func ruleR12fInto(h *H, rule string) {
 	h.Verdict(same && reqBounds, rule, "delete-range bounds in "+ir.FuncName(f), h.pos(tomb), "scan and tombstone both use request.StartInclusive / request.EndExclusive", "the scanned range and the deleted range differ (or are not the request's bounds)")
 	// the callback loop
 	cbs := h.P.CallsIn(f, cbOnDelEntry)
+	if len(cbs) == 0 {
+		// the per-entry step may be a local closure of f that is called in place
+		for _, g := range h.P.Funcs {
+			if g.Parent() != f {
+				continue
+			}
+			for _, c := range h.P.CallsIn(g, cbOnDelEntry) {
+				if up := liftThroughLocalClosure(c); up != c && up.Parent() == f {
+					cbs = append(cbs, up)
+					h.Fn(ir.FuncName(g))
+				}
+			}
+		}
+	}
 	if len(cbs) != 1 {
 		h.Anchor(rule, "the OnDeleteWithEntry callback call in "+ir.FuncName(f))
 		return
